@@ -1,18 +1,223 @@
 /-
-  Property C04 — PLACEHOLDER while the full theorem file is being written and proved.
+  Property C04 — the token service acts only on approved, well-formed hub messages from trusted chains.
+  Statements are FIXED: prove them exactly as stated (helper lemmas go above them or in Cgp/Proofs/C04.lean).
+  You may import and reuse the already proved files Cgp.Props.C10 / Cgp.Proofs.C10 (ABI round trip and canonicity),
+  Cgp.Props.C02 / Cgp.Proofs.C02 (gateway message status).
 -/
-import Cgp.Its
+import Cgp.ItsOps
+import Cgp.Props.C10
+import Cgp.Proofs.C04
 namespace Cgp.Props.C04
 open Cgp Cgp.Xdr Cgp.Its
 
-/-- owner-only trusted-chain changes never touch balances, registry or approvals (frame clause shared by the ITS properties) -/
-theorem setTrusted_frame (st st' : State) (auths : List Addr) (c : Bytes) (evs : List Event)
-    (h : setTrustedChain st auths c = .ok (st', evs)) :
-    st.owner ∈ auths ∧ st'.tokens = st.tokens ∧ st'.registry = st.registry ∧ st'.gw = st.gw := by
-  unfold setTrustedChain at h
-  split at h <;> try simp at h
-  split at h <;> try simp at h
-  obtain ⟨rfl, _⟩ := h
-  simp_all
+variable (H : Bytes → Bytes) (S : Bytes → Bytes) (k : Consts)
+
+/-- the gateway message the service claims to be executing -/
+def claimed (st : State) (c i sa payload : Bytes) : Gateway.Message :=
+  { sourceChain := c, messageId := i, sourceAddress := sa, contract := st.self, payloadHash := H payload }
+
+/-- acceptance needs an unexecuted gateway approval of EXACTLY this payload for the service … -/
+theorem execute_needs_approval (st : State) (c i sa payload : Bytes) (r : State × List Event)
+    (h : execute H S k st c i sa payload = .ok r) :
+    st.gw.approvals c i = .approved (Gateway.messageHash H (claimed H st c i sa payload)) := by
+  exact (Cgp.Proofs.C04.execute_inv H S k h).1
+
+/-- … and consumes it … -/
+theorem execute_consumes (st st' : State) (c i sa payload : Bytes) (evs : List Event)
+    (h : execute H S k st c i sa payload = .ok (st', evs)) :
+    st'.gw.approvals c i = .executed ∧
+    (∀ c' i', ¬ (c' = c ∧ i' = i) → st'.gw.approvals c' i' = st.gw.approvals c' i') := by
+  have h4 : st'.gw = _ := (Cgp.Proofs.C04.execute_inv H S k h).2.2.2.1
+  rw [h4]
+  constructor
+  · simp [Cgp.Proofs.C04.consumed]
+  · intro c' i' hne
+    simp [Cgp.Proofs.C04.consumed, hne]
+
+/-- … so each message takes effect at most once: after a successful delivery the same (chain, id) can never be
+    delivered again, whatever source address or payload is presented -/
+theorem execute_once (st st' : State) (c i sa payload : Bytes) (evs : List Event)
+    (h : execute H S k st c i sa payload = .ok (st', evs)) (sa2 payload2 : Bytes) :
+    ∃ e, execute H S k st' c i sa2 payload2 = .error e := by
+  have hx : st'.gw.approvals c i = .executed := (execute_consumes H S k st st' c i sa payload evs h).1
+  cases h2 : execute H S k st' c i sa2 payload2 with
+  | error e => exact ⟨e, rfl⟩
+  | ok r =>
+    have := (Cgp.Proofs.C04.execute_inv H S k h2).1
+    rw [hx] at this
+    cases this
+
+/-- what a delivered payload must be for the service to act: hub chain, a CANONICAL receive-from-hub wrapper (re-encoding
+    reproduces the payload exactly, so truncated or padded payloads are out) around a supported message, naming a
+    currently trusted origin chain; for transfers a registered token, a decodable recipient and an amount in range; for
+    deployments a free id, representable metadata and a decodable minter -/
+theorem execute_conditions (st : State) (c i sa payload : Bytes) (r : State × List Event)
+    (h : execute H S k st c i sa payload = .ok r) :
+    c = k.hubChain ∧
+    ∃ origin inner, Abi.decodeHub payload = .ok (.receiveFromHub origin inner) ∧
+      Abi.encodeHub (.receiveFromHub origin inner) = .ok payload ∧
+      st.trusted origin = true ∧
+      (match inner with
+       | .transfer t => (st.registry t.tokenId).isSome = true ∧ (addrFromXdr t.dest).isSome = true ∧
+                        0 ≤ t.amount ∧ t.amount < 2 ^ 127
+       | .deploy d => st.registry d.tokenId = none ∧ validMetadata d.name d.symbol d.decimals = true ∧
+                      (∀ m, d.minter = some m → (addrFromXdr m).isSome = true)) := by
+  obtain ⟨_, _, hc, _, origin, inner, hdec, htr, hin⟩ := Cgp.Proofs.C04.execute_inv H S k h
+  obtain ⟨henc, hwf, _⟩ := Cgp.Props.C10.decodeHub_canonical payload _ hdec
+  refine ⟨hc, origin, inner, hdec, henc, htr, ?_⟩
+  cases inner with
+  | transfer t =>
+    have hw : (Abi.Msg.transfer t).wf := hwf.2
+    exact ⟨hin.1, hin.2, hw.2.1, hw.2.2⟩
+  | deploy d => exact hin
+
+/-- every rejected delivery leaves all balances, token registrations and the gateway's approval record untouched -/
+theorem execute_rejected_unchanged (st : State) (c i sa payload : Bytes) (e : Err)
+    (h : (step H S k st (.execute c i sa payload)).2 = .err e) :
+    (step H S k st (.execute c i sa payload)).1 = st := by
+  show (wrapEv st (execute H S k st c i sa payload)).1 = st
+  have h' : (wrapEv st (execute H S k st c i sa payload)).2 = .err e := h
+  cases hx : execute H S k st c i sa payload with
+  | error e' => rfl
+  | ok r => rw [hx] at h'; cases h'
+
+/-- untrusted origin, wrong source chain, unknown token: rejected -/
+theorem execute_rejects (st : State) (c i sa payload : Bytes) :
+    (c ≠ k.hubChain → ∃ e, execute H S k st c i sa payload = .error e) ∧
+    (∀ origin inner, Abi.decodeHub payload = .ok (.receiveFromHub origin inner) → st.trusted origin = false →
+        ∃ e, execute H S k st c i sa payload = .error e) ∧
+    (∀ origin t, Abi.decodeHub payload = .ok (.receiveFromHub origin (.transfer t)) → st.registry t.tokenId = none →
+        ∃ e, execute H S k st c i sa payload = .error e) ∧
+    (∀ chain inner, Abi.decodeHub payload = .ok (.sendToHub chain inner) → ∃ e, execute H S k st c i sa payload = .error e) := by
+  refine ⟨?_, ?_, ?_, ?_⟩
+  · intro hne
+    cases hx : execute H S k st c i sa payload with
+    | error e => exact ⟨e, rfl⟩
+    | ok r => exact absurd (Cgp.Proofs.C04.execute_inv H S k hx).2.2.1 hne
+  · intro origin inner hd hu
+    cases hx : execute H S k st c i sa payload with
+    | error e => exact ⟨e, rfl⟩
+    | ok r =>
+      obtain ⟨_, _, _, _, o', i', hdec, htr, _⟩ := Cgp.Proofs.C04.execute_inv H S k hx
+      rw [hd] at hdec
+      cases hdec
+      rw [hu] at htr
+      cases htr
+  · intro origin t hd hu
+    cases hx : execute H S k st c i sa payload with
+    | error e => exact ⟨e, rfl⟩
+    | ok r =>
+      obtain ⟨_, _, _, _, o', i', hdec, _, hin⟩ := Cgp.Proofs.C04.execute_inv H S k hx
+      rw [hd] at hdec
+      cases hdec
+      have := hin.1
+      rw [hu] at this
+      cases this
+  · intro chain inner hd
+    cases hx : execute H S k st c i sa payload with
+    | error e => exact ⟨e, rfl⟩
+    | ok r =>
+      obtain ⟨_, _, _, _, o', i', hdec, _, _⟩ := Cgp.Proofs.C04.execute_inv H S k hx
+      rw [hd] at hdec
+      cases hdec
+
+/-- successful deliveries in a history, per (chain, id) -/
+def deliveries (c i : Bytes) : List Op → List Obs → Nat
+  | (.execute c' i' _ _) :: ops, (.ok _) :: os => deliveries c i ops os + (if c' = c ∧ i' = i then 1 else 0)
+  | _ :: ops, _ :: os => deliveries c i ops os
+  | _, _ => 0
+
+/-- gateway activity that respects the gateway's own discipline: an executed message stays executed -/
+def Monotone (f : Gateway.State → Gateway.State) : Prop :=
+  ∀ g c i, g.approvals c i = .executed → (f g).approvals c i = .executed
+
+def GatewayOk : Op → Prop
+  | .gateway f => Monotone f
+  | _ => True
+
+/-- contribution of one step to `deliveries` -/
+def hit (c i : Bytes) : Op → Obs → Nat
+  | .execute c' i' _ _, .ok _ => if c' = c ∧ i' = i then 1 else 0
+  | _, _ => 0
+
+theorem deliveries_cons (c i : Bytes) (op : Op) (ops : List Op) (o : Obs) (os : List Obs) :
+    deliveries c i (op :: ops) (o :: os) = deliveries c i ops os + hit c i op o := by
+  cases op <;> cases o <;> simp [deliveries, hit]
+
+theorem run_cons_snd (st : State) (op : Op) (ops : List Op) :
+    (run H S k st (op :: ops)).2 = (step H S k st op).2 :: (run H S k (step H S k st op).1 ops).2 := rfl
+
+/-- an executed message stays executed under every step -/
+theorem step_keeps_executed (st : State) (op : Op) (c i : Bytes) (hop : GatewayOk op)
+    (hx : st.gw.approvals c i = .executed) : (step H S k st op).1.gw.approvals c i = .executed := by
+  by_cases hg : ∃ f, op = .gateway f
+  · obtain ⟨f, rfl⟩ := hg
+    exact hop st.gw c i hx
+  · by_cases he : ∃ c' i' sa p, op = .execute c' i' sa p
+    · obtain ⟨c', i', sa, p, rfl⟩ := he
+      rcases Cgp.Proofs.C04.step_execute H S k st c' i' sa p with ⟨_, h2⟩ | ⟨_, h2, _⟩
+      · rw [h2]; exact hx
+      · rw [h2]
+        simp only [Cgp.Proofs.C04.consumed]
+        split
+        · rfl
+        · exact hx
+    · rw [Cgp.Proofs.C04.step_gw H S k st op (fun c' i' sa p h => he ⟨c', i', sa, p, h⟩) (fun f h => hg ⟨f, h⟩)]
+      exact hx
+
+/-- a successful delivery of `(c, i)` needs it not yet executed, and leaves it executed -/
+theorem hit_step (st : State) (op : Op) (c i : Bytes) (hh : hit c i op (step H S k st op).2 ≠ 0) :
+    st.gw.approvals c i ≠ .executed ∧ (step H S k st op).1.gw.approvals c i = .executed := by
+  cases op with
+  | execute c' i' sa p =>
+    rcases Cgp.Proofs.C04.step_execute H S k st c' i' sa p with ⟨⟨e, h1⟩, _⟩ | ⟨⟨evs, h1⟩, h2, hh3, h3⟩
+    · rw [h1] at hh; simp [hit] at hh
+    · rw [h1] at hh
+      simp only [hit] at hh
+      split at hh
+      · rename_i hci
+        obtain ⟨rfl, rfl⟩ := hci
+        refine ⟨(by rw [h3]; intro hc; cases hc), ?_⟩
+        rw [h2]; simp [Cgp.Proofs.C04.consumed]
+      · exact absurd rfl hh
+  | _ => simp [hit] at hh
+
+theorem effect_aux (c i : Bytes) (ops : List Op) : ∀ st : State, (∀ op ∈ ops, GatewayOk op) →
+    deliveries c i ops (run H S k st ops).2 ≤ 1 ∧
+    (st.gw.approvals c i = .executed → deliveries c i ops (run H S k st ops).2 = 0) := by
+  induction ops with
+  | nil => intro st _; simp [deliveries]
+  | cons op ops ih =>
+    intro st hg
+    have hop : GatewayOk op := hg op (by simp)
+    obtain ⟨ih1, ih2⟩ := ih (step H S k st op).1 (fun o ho => hg o (by simp [ho]))
+    rw [run_cons_snd, deliveries_cons]
+    by_cases hh : hit c i op (step H S k st op).2 = 0
+    · rw [hh]
+      refine ⟨by omega, fun hx => ?_⟩
+      have := ih2 (step_keeps_executed H S k st op c i hop hx)
+      omega
+    · obtain ⟨h1, h2⟩ := hit_step H S k st op c i hh
+      have h0 := ih2 h2
+      have hle : hit c i op (step H S k st op).2 ≤ 1 := by
+        cases op <;> cases (step H S k st _).2 <;> simp [hit] <;> split <;> omega
+      refine ⟨by omega, fun hx => absurd hx h1⟩
+
+/-- **exactly once over every history** (the gateway never un-executes a message — proved for the real gateway in C02) -/
+theorem effect_at_most_once (st : State) (ops : List Op) (c i : Bytes) (hg : ∀ op ∈ ops, GatewayOk op) :
+    deliveries c i ops (run H S k st ops).2 ≤ 1 := by
+  exact (effect_aux H S k c i ops st hg).1
+
+/-- THE HUB ADDRESS IS NEVER COMPARED (known finding): the acceptance of a delivery does not depend on the configured hub
+    address at all — changing it changes nothing about whether a delivery is accepted -/
+theorem hub_address_not_checked (st : State) (other : Bytes) (c i sa payload : Bytes) :
+    (∃ r, execute H S k st c i sa payload = .ok r) ↔
+    (∃ r, execute H S k { st with hubAddress := other } c i sa payload = .ok r) := by
+  have key := Cgp.Proofs.C04.execute_hub H S k other st c i sa payload
+  change execute H S k { st with hubAddress := other } c i sa payload = _ at key
+  rw [key]
+  cases execute H S k st c i sa payload with
+  | error e => exact ⟨fun ⟨_, h⟩ => (by cases h), fun ⟨_, h⟩ => (by cases h)⟩
+  | ok r => exact ⟨fun _ => ⟨_, rfl⟩, fun _ => ⟨_, rfl⟩⟩
 
 end Cgp.Props.C04
